@@ -183,10 +183,11 @@ pub fn run(args: &Args) {
     let distinct: BTreeSet<u64> = lines.iter().map(|l| fnv(&l.to_string())).collect();
     let prop = opts.prop.clone();
     let rd = args.req("replay-dir").to_string();
+    let lines = std::sync::Arc::new(lines);       // shared with the watchdog, not copied
     let lines_for_hang = lines.clone();
     let seed = opts.seed;
     let stats = run_parallel(
-        &lines,
+        &lines[..],
         args.num("threads", 1) as usize,
         60,
         move |i| {
